@@ -34,7 +34,8 @@ RULE = ("case = one history executed in one new process: fresh (job twice), seq 
         "molecules), enginereuse (one MD engine / optimiser object, consecutive runs on fresh Molecule objects, also with "
         "control_energy_shift / scale_vel), options (ordered pairs of jobs with dispersion / cutoff / alternative "
         "parameter files / learned lists), stochastic (seeded Langevin / damped XL-BOMD from preset velocities: A, other RNG "
-        "use, A), threads (torch.set_num_threads 2,4,8,16,1 before the job); non-trivial when at least one step "
+        "use, A), farpair (a system with a pair > 21.2 A repeated after other jobs and heap poisoning), interleaved-build "
+        "(build A, build B, then run A), threads (torch.set_num_threads 2,4,8,16,1 before the job); non-trivial when at least one step "
         "was compared with a fresh-process reference; distinct by SHA-1 of the case")
 ASSUMPTIONS = ["float64 CPU", "the fresh-process reference of a job is computed once per check run and shared between "
                "cases through a scratch cache (it is deterministic: verified by the 'fresh' cases, which run it twice)",
@@ -46,7 +47,8 @@ REQUIRED_MONITORS = ["fresh_processes", "immediate_repeats_compared", "steps_jud
                      "dict_reuse_steps_judged", "driver_reuse_steps_judged", "interleave_jobs_judged",
                      "thread_steps_judged", "raising_steps_judged", "engine_reuse_steps_judged",
                      "engine_reuse_with_run_options_judged", "option_job_steps_judged",
-                     "seeded_stochastic_preset_velocity_steps_judged"]
+                     "seeded_stochastic_preset_velocity_steps_judged", "far_pair_jobs_after_heap_poisoning",
+                     "interleaved_build_then_run_judged", "interleaved_build_then_run_engines_judged"]
 CASE_TIMEOUT = 1200.0
 BUDGET_S = {"quick": float(os.environ.get("VERIF_C15_BUDGET", 230)), "thorough": float(os.environ.get("VERIF_C15_BUDGET", 1700))}
 MIN_NONTRIVIAL = 6
@@ -64,18 +66,29 @@ _OK_JOBS = [k for k in J.JOBS if J.JOBS[k].get("expect") != "raises"]
 _SIG_A = [k for k in J.JOBS if J.JOBS[k]["sig"] == "A"]
 
 
+_POOL_LIMIT = [None]  # quick tier: random steps only draw jobs that the named cells use anyway (no extra reference processes)
+
+
+def _pick(g, lst):
+    if _POOL_LIMIT[0] is not None:
+        lst = [j for j in lst if j in _POOL_LIMIT[0]] or lst
+    return lst[int(g.integers(0, len(lst)))]
+
+
 def _rand_step(g, allow_raise=True):
     r = g.random()
     if allow_raise and r < 0.12:
         return {"job": J.RAISE_JOBS[int(g.integers(0, len(J.RAISE_JOBS)))], "reuse": ["none", "dict"][int(g.integers(0, 2))]}
-    if r < 0.17:
+    if r < 0.15:
         return {"consume_rng": int(g.integers(1, 50))}
+    if r < 0.19:
+        return {"poison_heap": 1}
     if r < 0.40:  # favour the family that shares one settings template (dictionary / driver reuse is meaningful there)
-        job = _SIG_A[int(g.integers(0, len(_SIG_A)))]
+        job = _pick(g, _SIG_A)
     elif r < 0.58:  # rarely used options that carry their own tables / module state, in either order
-        job = J.OPTION_JOBS[int(g.integers(0, len(J.OPTION_JOBS)))]
+        job = _pick(g, J.OPTION_JOBS)
     else:
-        job = _OK_JOBS[int(g.integers(0, len(_OK_JOBS)))]
+        job = _pick(g, _OK_JOBS)
     modes = ["none", "dict", "engine"] if job in J.ENGINE_JOBS else ["none", "dict", "driver"]
     return {"job": job, "reuse": modes[int(g.integers(0, 3))]}
 
@@ -103,7 +116,8 @@ def gen_cases(tier, seed):
             k = int(g.integers(2, 5))
             jobs = [J.GRAD_JOBS[int(x)] for x in g.permutation(len(J.GRAD_JOBS))[:k]]
             order = ["joint", "fifo", "lifo"][int(g.integers(0, 3))]
-        pre = [_rand_step(g) for _ in range(int(g.integers(0, 3)))]
+        pre = [_rand_step(g) for _ in range(int(g.integers(0, 3)))] if tier == "thorough" else \
+            [{"job": "am1_h2o", "reuse": "none"}][:int(g.integers(0, 2))]
         cases.append({"kind": "interleave", "steps": pre + [{"interleave": jobs, "order": order}]})
     # --- one dictionary, two molecules (pristine copy = the fresh reference)
     dr = [("am1_h2o", "am1_ch4", "dict"), ("am1_h2o", "am1_hcl", "dict"), ("am1_ch4", "am1_h2o", "driver"),
@@ -149,6 +163,30 @@ def gen_cases(tier, seed):
                 ("md_lang_preset", {"job": "md_xldamp_preset", "reuse": "none"})]
     for a, mid in sp_:
         cases.append({"kind": "stochastic", "steps": [{"job": a, "reuse": "none"}, mid, {"job": a, "reuse": "none"}]})
+    # --- far pairs (> 21.2 A): the same job repeated in one process after unrelated jobs and allocator traffic that leaves
+    # NaN / huge values in freed memory; bit-identical to itself and to the fresh-process reference
+    fp = [("far_h2o_dimer", ["am1_c6h6", "pm3_ch3oh_sp2"]), ("far_batch", ["am1_batch"]), ("md_far_h2o", ["md_bomd_h2o"]),
+          ("far_ch2o_pm3", ["am1_ch2o_cis"])]
+    if tier == "thorough":
+        fp += [(a, [b]) for a in J.FAR_JOBS for b in ("am1_c6h6", "pm6_hcl", "mndo_nh2_uhf", "disp_batch")]
+    for a, others in fp:
+        st = [{"job": a, "reuse": "none"}]
+        for o in others:
+            st.append({"job": o, "reuse": "none"})
+        st += [{"poison_heap": 2}, {"job": a, "reuse": "none"}, {"poison_heap": 1}, {"job": a, "reuse": "none"}]
+        cases.append({"kind": "farpair", "steps": st})
+    # --- objects built in interleaved order: build A, build B (other method / elements / learned parameters), THEN run A
+    ib = [(["md_bomd_ch2o", "pm3_ch2o"], ["md_bomd_ch2o", "pm3_ch2o"]), (["md_lang_ch2o", "pm3_ch2o"], ["md_lang_ch2o"]),
+          (["am1_h2o", "am1_h2o_learned", "pm3_h2o"], ["am1_h2o", "pm3_h2o"]), (["opt_sd_h2o", "am1_hcl"], ["opt_sd_h2o"]),
+          (["g_am1_h2o_tight", "pm3_h2o_altparams"], ["g_am1_h2o_tight"])]
+    if tier == "thorough":
+        ib += [(["md_xl_h2o", "pm3_h2o"], ["md_xl_h2o"]), (["md_ksa_h2o", "am1_h2o_learned"], ["md_ksa_h2o"]),
+               (["md_bomd_h2o", "am1_nh3"], ["md_bomd_h2o", "am1_nh3"]), (["pm3_ch2o", "md_bomd_ch2o"], ["pm3_ch2o", "md_bomd_ch2o"]),
+               (["md_lang_nh3", "mndo_nh2_uhf", "am1_nh3"], ["md_lang_nh3", "am1_nh3"]), (["xl_eval_ch2o", "pm3_ch2o"], ["xl_eval_ch2o"]),
+               (["md_shift_h2o", "pm6sp_h2s"], ["md_shift_h2o"]), (["am1_ch2o_cis", "pm3_ch2o", "md_bomd_ch2o"], ["am1_ch2o_cis", "md_bomd_ch2o"])]
+    for build, runs in ib:
+        pre = [_rand_step(g)] if tier == "thorough" else []
+        cases.append({"kind": "interleaved-build", "steps": pre + [{"build": build, "run": runs}]})
     # --- thread counts
     tj = ["am1_c6h6", "am1_batch", "pm3_ch3oh_sp2", "g_am1_h2o_tight", "md_bomd_h2o"]
     for i in range(nthr):
@@ -159,10 +197,16 @@ def gen_cases(tier, seed):
             st += [{"set_threads": n}, {"job": job, "reuse": "none"}]
         cases.append({"kind": "threads", "steps": st})
     # --- random histories
+    if tier == "quick":
+        named = set()
+        for c in cases:
+            for st in c["steps"]:
+                named |= set(st.get("interleave", [])) | set(st.get("run", [])) | ({st["job"]} if "job" in st else set())
+        _POOL_LIMIT[0] = named
     for i in range(nseq):
         n = int(g.integers(1, 6 if tier == "quick" else 9))
         steps = [_rand_step(g) for _ in range(n)]
-        target = _OK_JOBS[int(g.integers(0, len(_OK_JOBS)))]
+        target = _pick(g, _OK_JOBS)
         modes = ["none", "dict", "engine"] if target in J.ENGINE_JOBS else ["none", "dict", "driver"]
         steps.append({"job": target, "reuse": modes[int(g.integers(0, 3))]})
         if g.random() < 0.5:
@@ -173,8 +217,9 @@ def gen_cases(tier, seed):
     used = set(J.RAISE_JOBS)
     for c in cases:
         for st in c["steps"]:
-            used |= set(st.get("interleave", [])) | ({st["job"]} if "job" in st else set())
+            used |= set(st.get("interleave", [])) | set(st.get("run", [])) | ({st["job"]} if "job" in st else set())
     fresh = [{"kind": "fresh", "job": k} for k in J.JOBS if tier == "thorough" or k in used]
+    _POOL_LIMIT[0] = None
     return fresh + cases
 
 
@@ -365,6 +410,7 @@ def run_case(case):
         obs_steps = []
         prev = None  # (job, reuse, result) of the directly preceding job step, for the immediate-repeat clause
         threads_now = 1
+        poisoned = False
         for st, r in zip(case["steps"], res["steps"]):
             if "set_threads" in st:
                 threads_now = r.get("set_threads")
@@ -374,8 +420,27 @@ def run_case(case):
                 continue
             if "consume_rng" in st:
                 continue
+            if "poison_heap" in st:
+                poisoned = True  # allocator traffic changes no input: the immediate-repeat clause stays in force
+                inc("heap_poisoning_steps")
+                continue
             items = []
-            if "interleave" in st:
+            if "build" in st:
+                inc("interleaved_build_steps")
+                if r.get("parameters_dict_shared"):
+                    inc("molecule_parameters_dict_shared_between_objects", len(r["parameters_dict_shared"]))
+                for a, keys in (r.get("parameters_changed_by_later_build") or {}).items():
+                    viol.append({"clause": "molecule-parameters-changed-by-a-later-build", "mech": None,
+                                 "detail": {"molecule_of_job": a, "built_in_order": st["build"], "changed_keys": keys[:12],
+                                            "dict_shared_with": r.get("parameters_dict_shared")}})
+                for rr in r["runs"]:
+                    if rr.get("phase") == "build":
+                        viol.append({"clause": "raises-while-building-after-history", "mech": None,
+                                     "detail": {"job": rr["job"], "exc": rr.get("exc"), "built_in_order": st["build"]}})
+                        continue
+                    items.append((rr["job"], rr, "interleaved-build", None))
+                prev = None
+            elif "interleave" in st:
                 for i, rr in enumerate(r["interleave"]):
                     items.append((rr["job"], rr, "interleave", _mech_interleave(st["interleave"], i)))
             else:
@@ -416,6 +481,12 @@ def run_case(case):
                     inc("engine_reuse_with_run_options_judged")
                 if job in J.OPTION_JOBS:
                     inc("option_job_steps_judged")
+                if job in J.FAR_JOBS and poisoned:
+                    inc("far_pair_jobs_after_heap_poisoning")
+                if where == "interleaved-build":
+                    inc("interleaved_build_then_run_judged")
+                    if J.JOBS[job]["kind"] in ("md", "opt"):
+                        inc("interleaved_build_then_run_engines_judged")
                 if job in J.STOCHASTIC_PRESET_JOBS:
                     inc("seeded_stochastic_preset_velocity_steps_judged")
                 if rr.get("engine_reused"):
@@ -444,7 +515,8 @@ def run_case(case):
                                             "dict_first_elements": rr.get("dict_first_elements"),
                                             "job_elements": J.elements(job), "steps": case["steps"]}})
                 # immediate repeat inside a history (same job, same reuse mode, directly after itself)
-                if prev is not None and prev[0] == job and prev[1] == rr.get("reuse") and where != "interleave" \
+                if prev is not None and prev[0] == job and prev[1] == rr.get("reuse") \
+                        and where not in ("interleave", "interleaved-build") \
                         and prev[2]["status"] == "ok":
                     inc("immediate_repeats_compared")
                     if prev[2]["sha"] != rr["sha"]:
@@ -454,7 +526,7 @@ def run_case(case):
                                                 "differences": [(k, d) for k, d, t, ra in b2][:6], "steps": case["steps"]}})
                     else:
                         inc("immediate_repeats_bitwise_equal")
-                prev = (job, rr.get("reuse"), rr) if where != "interleave" else None
+                prev = (job, rr.get("reuse"), rr) if where not in ("interleave", "interleaved-build") else None
     return {"nontrivial": judged > 0, "violations": viol, "margins": margins, "monitors": mon, "cells": sorted(set(cells)),
             "obs": {"kind": kind, "steps": obs_steps, "judged": judged, "worst": margins}}
 
